@@ -54,6 +54,18 @@ WIDE = {"name": "W", "sizes": [256], "enclens": [2], "modes": [1], "maxbatches":
         "shapes": ["d16h2l2"], "biases": [1, 3], "per_history": 2, "design": False, "strict": False}
 
 
+# degraded but legal line images (round 9): (almost) black crops - uint8 values 0 / 1, not all zero - decoded alone (n = 1, kind 1), with
+# other dark crops (n = 2, kind 1) and next to ordinary crops (n = 2, kind 2), before / after ordinary batches (kind 0) on the same
+# engine; thorough adds constant lines (kind 3), uncached calls and the second encoder length.  Sizes / EncLens are a subset of
+# bounds A: the protocol is the one TLC explored for A, and the histories are validated together with A's (same constants).
+def dark(tier):
+    if tier == "quick":
+        return {"name": "D", "sizes": [1, 2], "enclens": [2], "modes": [1], "kinds": [0, 1, 2], "maxbatches": 2,
+                "shapes": ["d16h2l2", "d24h3l1", "d32h4l3"], "biases": [0, 1, 2, 3, 4], "per_history": 2}
+    return {"name": "D", "sizes": [1, 2], "enclens": [1, 2], "modes": [1, 0], "kinds": [0, 1, 2, 3], "maxbatches": 2,
+            "shapes": ["d16h2l2", "d24h3l1", "d32h4l3"], "biases": [0, 1, 2, 3, 4], "per_history": 1}
+
+
 def constants(b, variant="ok", **over):
     c = {"Sizes": set(b["sizes"]), "EncLens": set(b["enclens"]), "Syms": set(b["syms"]), "Modes": {bool(m) for m in b["modes"]},
          "MaxBatches": b["maxbatches"], "Variant": variant}
@@ -67,9 +79,13 @@ def trace_constants(b, strict):
 
 def histories(b):
     opts = list(itertools.product(b["sizes"], b["enclens"], b["modes"]))
+    if "kinds" in b:       # image kinds (tc_common.images); a mixed batch needs two lines; all-ordinary histories are those of A
+        opts = [o + (k,) for o in opts for k in b["kinds"] if not (k == 2 and o[0] < 2)]
     out = []
     for n in range(1, b["maxbatches"] + 1):
         out += [list(map(list, h)) for h in itertools.product(opts, repeat=n)]
+    if "kinds" in b:
+        out = [h for h in out if any(e[3] for e in h)]
     return out
 
 
@@ -83,6 +99,9 @@ def cases_of(ctx, b):
     return cases
 
 
+KINDS = ["", ", (almost) black lines: uint8 values 0/1", ", black and ordinary lines mixed", ", constant lines"]
+
+
 def _describe(tr, k):
     if k >= len(tr["batches"]):
         return "protocol", "history not completed"
@@ -91,12 +110,17 @@ def _describe(tr, k):
         return "outcome", "call %d (n=%d, e=%d, cached=%d) ended with %s" % (k + 1, b["n"], b["e"], b["cached"], b["outcome"])
     worst = max(("d_unc", b["d_unc"]), ("d_tf", b["d_tf"]), ("d_alone", b["d_alone"]), key=lambda x: x[1])
     if worst[1] > TOL:
-        return "numeric", ("call %d (n=%d, e=%d, cached=%d): logits differ from the reference by %.3g (%s; uncached %.3g, teacher-forced "
-                           "%.3g, alone %.3g)" % (k + 1, b["n"], b["e"], b["cached"], worst[1] * C.UNIT, worst[0], b["d_unc"] * C.UNIT,
-                                                  b["d_tf"] * C.UNIT, b["d_alone"] * C.UNIT))
+        return "numeric", ("call %d (n=%d, e=%d, cached=%d%s): logits differ from the reference by %.3g (%s; uncached %.3g, teacher-forced "
+                           "%.3g, alone %.3g)" % (k + 1, b["n"], b["e"], b["cached"], KINDS[b.get("kind", 0)], worst[1] * C.UNIT, worst[0],
+                                                  b["d_unc"] * C.UNIT, b["d_tf"] * C.UNIT, b["d_alone"] * C.UNIT))
     if b["margin"] > MARG and not (b["eq_unc"] and b["eq_alone"]):
         return "transcription", ("call %d (n=%d, e=%d, cached=%d): transcription differs from %s although every margin exceeds %.0e" % (
             k + 1, b["n"], b["e"], b["cached"], "uncached decoding" if not b["eq_unc"] else "the line decoded alone", MARG * C.UNIT))
+    if b.get("d_late", 0) > TOL or not b.get("eq_late", 1):
+        return "kept-result", ("call %d (n=%d, e=%d, cached=%d): the scores / transcriptions this call handed back, looked at again after "
+                               "the %d call(s) that followed on the same engine, differ from its recomputation / teacher-forced pass by "
+                               "%.3g (transcriptions and shape unchanged: %d) - right after the call they agreed" % (
+                                   k + 1, b["n"], b["e"], b["cached"], len(tr["batches"]) - k - 1, b["d_late"] * C.UNIT, b["eq_late"]))
     return "transcript-shape", "call %d (n=%d, e=%d, cached=%d): returned transcription %s is not the line's own symbols %s without boundary/ignore" % (
         k + 1, b["n"], b["e"], b["cached"], b["res"], b["syms"])
 
@@ -159,7 +183,8 @@ def sharpness(ctx):
 def run(ctx):
     ctx.rule = ("every history of <= MaxBatches transcribe_batch calls (batch size x encoder length x is_cached) on one model object, "
                 "replayed on random-weight TransformerOCR models (shapes x output-bias settings so that lines finish at different "
-                "steps, emit ignore symbols or hit the cap); non-trivial = history of at least two calls")
+                "steps, emit ignore symbols or hit the cap); plus histories with (almost) black / mixed / constant line images; the "
+                "objects every call returned are looked at again after the whole history; non-trivial = history of at least two calls")
     ctx.exhaustive = True
     ctx.assume("stub convolutional front-end (8x4 kernel, stride 8x4) instead of the VGG front-end whose weights cannot be downloaded",
                "random weights, CPU float32; logits compared with tolerance %.0e (largest deviation measured: 1.4e-6); transcriptions of "
@@ -171,6 +196,8 @@ def run(ctx):
         if b.get("design", True):
             design(ctx, b)
         cases = cases_of(ctx, b)
+        if b["name"] == "A":         # the degraded-image histories ride on A's constants and trace-validation run
+            cases = cases + cases_of(ctx, dark(ctx.tier))
         traces = pmap(C.run_history, cases, procs=6)
         judge(ctx, b, cases, traces)
     ctx.notes["explanation"] = ("LEVEL model_checking refers to the protocol (cache cells, loop, termination incl. liveness) checked "
